@@ -146,10 +146,12 @@ def gen(tier, rng):
         s = ("GET /v09-%d HTTP/0.9\r\nHost: h\r\n%s\r\n" % (i, extra_h)).encode() + body + b"GET /after HTTP/1.1\r\nHost: h\r\n\r\n"
         yield cv_line(s, [act, action_str([], respond_str(200, b"after", True))], extra="c14=1"), {"kind": "http-0.9"}
     # very long pipelines (a megabyte of tiny requests): implementation and oracle only
-    for ver in (b"2.0", b"3.0", b"1.1"):
-        s = (b"GET / HTTP/" + ver + b"\r\n\r\n") * 60000 + b"GET /after HTTP/1.1\r\nHost: h\r\n\r\n"
-        yield (cv_line(s, [action_str([], respond_str(200, b"ok", True))], extra="c14=1 nomodel=1 limit=20000"),
-               {"kind": "pipeline-60000-" + ver.decode()})
+    # (the HTTP/1.1 pipeline is answered request by request by the harness: 15000 of them take about 3 s on an idle
+    # machine; the time limit leaves room for a machine that is ten times slower)
+    for ver, count in ((b"2.0", 60000), (b"3.0", 60000), (b"1.1", 15000)):
+        s = (b"GET / HTTP/" + ver + b"\r\n\r\n") * count + b"GET /after HTTP/1.1\r\nHost: h\r\n\r\n"
+        yield (cv_line(s, [action_str([], respond_str(200, b"ok", True))], extra="c14=1 nomodel=1 limit=32000"),
+               {"kind": "pipeline-%d-%s" % (count, ver.decode())})
 
 
 def project(obs):
